@@ -1,6 +1,7 @@
 //! C27 Address book keeps the newest authentic transport info per node.
 //!
-//! Every sequence without repetition (length <= 4, thorough 5) over an 11-record alphabet is
+//! Every sequence without repetition over an 11-record alphabet (NodeInfo level: length <= 5,
+//! thorough 6; address-book level: length <= 3, thorough 5) is
 //! delivered (a) to plain `NodeInfo::update_transports` entries (depth-first with shared
 //! prefixes) and (b) through the real `AddressBook` actor (`insert_transport_info`, SQLite store)
 //! and compared step by step with a last-writer-wins register written here.  A differential
@@ -636,7 +637,7 @@ fn self_check(w: &World) -> Result<(), String> {
 pub fn run(mut rep: Report) -> i32 {
     let thorough = rep.thorough();
     // len_pre: longest sequence also run with N preconfigured (entry without transports)
-    let (len_direct, len_book, len_pre) = if thorough { (6, 5, 4) } else { (5, 4, 2) };
+    let (len_direct, len_book, len_pre) = if thorough { (6, 5, 4) } else { (5, 3, 2) };
     let w = world();
     if let Err(e) = self_check(&w) {
         rep.machinery_error(e);
@@ -649,6 +650,7 @@ pub fn run(mut rep: Report) -> i32 {
     );
 
     // (a)
+    let t0 = std::time::Instant::now();
     let mut fa = Fold::default();
     let en = NodeInfo::new(w.n);
     let em = NodeInfo::new(w.m);
@@ -656,7 +658,8 @@ pub fn run(mut rep: Report) -> i32 {
     let direct_execs = fa.evals;
     let mut global = HashMap::new();
     fa.merge_into(&mut rep, "node-info", &w, &mut global);
-    rep.part(json!({"part": "node-info", "sequence_prefixes": direct_execs, "max_len": len_direct}));
+    rep.part(json!({"part": "node-info", "sequence_prefixes": direct_execs, "max_len": len_direct, "wall_s": t0.elapsed().as_secs_f64()}));
+    let t0 = std::time::Instant::now();
 
     // (b)
     let seqs = all_sequences(w.recs.len(), len_book);
@@ -693,12 +696,19 @@ pub fn run(mut rep: Report) -> i32 {
         book_cases += f.evals;
         f.merge_into(&mut rep, "address-book", &w, &mut global);
     }
-    rep.part(json!({"part": "address-book", "cases": book_cases, "sequences": seqs.len(), "max_len": len_book, "workers": threads}));
+    rep.part(json!({"part": "address-book", "cases": book_cases, "sequences": seqs.len(), "max_len": len_book, "max_len_preconfigured": len_pre, "workers": threads, "wall_s": t0.elapsed().as_secs_f64()}));
+    let t0 = std::time::Instant::now();
 
-    // (c) a fresh default-built book per sequence (length <= 2): the exact production constructor.
+    // (c) a fresh default-built book per sequence: the exact production constructor.
     let rt = runtime();
     let mut fc = Fold::default();
-    let short = all_sequences(w.recs.len(), 2);
+    // building a production book costs ~0.1 s (store with three connections, migrations, actor
+    // thread): quick = every single record and every pair starting with a2; thorough = every
+    // sequence of length <= 2
+    let short: Vec<Vec<usize>> = all_sequences(w.recs.len(), 2)
+        .into_iter()
+        .filter(|s| thorough || s.len() == 1 || s[0] == A2)
+        .collect();
     rt.block_on(async {
         for seq in &short {
             let book = AddressBook::builder().spawn().await.expect("address book");
@@ -738,7 +748,7 @@ pub fn run(mut rep: Report) -> i32 {
     });
     let fresh = fc.evals;
     fc.merge_into(&mut rep, "fresh-book", &w, &mut HashMap::new());
-    rep.part(json!({"part": "fresh-book", "cases": fresh, "max_len": 2}));
+    rep.part(json!({"part": "fresh-book", "cases": fresh, "max_len": 2, "wall_s": t0.elapsed().as_secs_f64()}));
 
     // Observation only (not part of the verdict): a record authentically signed by N whose
     // address names another node passes AuthenticatedTransportInfo::verify (signature only).
@@ -750,7 +760,7 @@ pub fn run(mut rep: Report) -> i32 {
         rep.set("observation_signed_by_N_with_address_of_M", json!(format!("{r:?}")));
     }
     rep.assume("records signed by N itself whose address names another node are outside the alphabet: the statement ties id matching to trusted records and authenticity to the signature; the observed behaviour is recorded in coverage.observation_signed_by_N_with_address_of_M");
-    rep.assume("address-book part: one book per worker, entries of N, M and the forger are deleted through the store handle between cases (harness reset outside the code under test); a fresh production-built book per sequence is used for all sequences of length <= 2");
+    rep.assume("address-book part: one book per worker, entries of N, M and the forger are deleted through the store handle between cases (harness reset outside the code under test); a fresh production-built book per sequence is used for all single records and all pairs starting with a2 (thorough: all sequences of length <= 2)");
     rep.assume("insert_node_info (local configuration path, overwrites unconditionally) is out of scope of 'transport records'; it is only used to create the preconfigured entry");
     rep.assume("sqlx worker threads and the actor thread are not scheduled by the harness: every call is awaited to completion, the oracle does not depend on their timing");
     rep.finish()
